@@ -130,6 +130,7 @@ Fixpoint loadable_in (v : obj) : bool :=
                          && self_evaluating (snd kv)) kvs  (* [C19-hash-values-unevaluated] *)
       && keys_distinct (map fst kvs)
   | Lam ll doc body => lam_ok ll doc body && (doc =? "")
+  | Inst _ _ | Flv _ _ _ _ _ _ => false     (* instances and flavors: as values of session variables, Session.v *)
   | Opaque _ => false
   end.
 
